@@ -1,7 +1,157 @@
-(* C16 — Cookies are sent only where RFC 6265 scoping allows.  Statements only. *)
-From AV Require Import Lib.Base Generated.CookiesGen Model.Cookies.
+(* C16 — Cookies are sent only where RFC 6265 scoping allows.
+   Only statements; each closed by `exact` of a lemma proved in Proofs/Cookies*.v.
+
+   Model/Cookies.v: `run` is the jar (cookies keyed (domain, path.rstrip("/"), name); host-only table keyed
+   (domain, name); deadline table; expiry heap; update_cookies / filter_cookies / clear / clear_domain /
+   save+load / _do_expiration) driven by a history of operations; `rfc_run` is an RFC 6265 section 5.3/5.4
+   reference store driven by the same history.  `attached_allowed unsafe t0 ops` says: for every
+   filter_cookies query of the history, every (name, value) the jar attaches is attached by the reference store. *)
+From AV Require Import Lib.Base Generated.CookiesGen Model.Cookies
+  Proofs.CookiesStrings Proofs.CookiesJar Proofs.CookiesSound Proofs.CookiesSpec Proofs.CookiesWitness.
 Open Scope N_scope.
 
-Example C16_example_placeholder : is_domain_match [99;111;109] [97;46;99;111;109] = true.
-Proof. vm_compute. reflexivity. Qed.
-Print Assumptions C16_example_placeholder.
+(* ---- The full statement would be
+
+        forall unsafe t0 ops, forallb op_hosts_okb ops = true -> attached_allowed unsafe t0 ops
+
+   (response hosts non-empty and without empty labels; nothing else assumed).  The faithful model REFUTES it
+   in three ways; each witness is replayed on the implementation (corpus/C16/finding-*.json) and is an open
+   known finding. *)
+
+(* "a=v2; Expires=Thu, 01 Jan 1970 00:00:00 GMT" is kept as a session cookie and sent *)
+Theorem C16_no_leak_refuted_epoch_zero :
+  forallb op_hosts_okb w_epoch_zero = true /\ ~ attached_allowed false T0 w_epoch_zero.
+Proof. exact (epoch_zero_refuted eq_refl). Qed.
+Print Assumptions C16_no_leak_refuted_epoch_zero.
+
+(* "a=v1; Path=/foo//" is sent to /foo/xy *)
+Theorem C16_no_leak_refuted_trailing_slashes :
+  forallb op_hosts_okb w_trailing_slashes = true /\ ~ attached_allowed false T0 w_trailing_slashes.
+Proof. exact trailing_slashes_refuted. Qed.
+Print Assumptions C16_no_leak_refuted_trailing_slashes.
+
+(* "a=v1; Max-Age=abc; Expires=<100 s ago>" is kept as a session cookie and sent *)
+Theorem C16_no_leak_refuted_invalid_max_age :
+  forallb op_hosts_okb w_invalid_max_age = true /\ ~ attached_allowed false T0 w_invalid_max_age.
+Proof. exact invalid_max_age_refuted. Qed.
+Print Assumptions C16_no_leak_refuted_invalid_max_age.
+
+(* ---- What is proved instead: for ALL histories (any length; any interleaving of Set-Cookie batches, clock
+   advances, clear, clear_domain, save+load and queries; safe or unsafe jar) whose Set-Cookie records avoid
+   exactly those three shapes (`op_okb`: cookie path without a double trailing slash; no unparseable Max-Age
+   next to a valid Expires; Expires value not the one `expires_value_used` discards), every attached cookie
+   is attached by the RFC reference store.  Missing for the full statement: the three findings above. *)
+Theorem C16_no_leak_partial : forall unsafe t0 ops,
+  forallb op_okb ops = true -> attached_allowed unsafe t0 ops.
+Proof. exact no_leak_partial_b. Qed.
+Print Assumptions C16_no_leak_partial.
+
+(* ... and "attached by the reference store" means, in RFC 6265 terms: some stored cookie with that name and
+   value domain-matches the request host (a host-only cookie: equals it), path-matches the request path, is not
+   Secure unless the scheme is, and has not expired. *)
+Theorem C16_reference_allows : forall s u now n v,
+  In (n, v) (rfc_filter s u now) <->
+  exists r, In r s /\ r_name r = n /\ r_value r = v /\
+    (if r_host_only r then r_domain r = u_host u else domain_match (r_domain r) (u_host u)) /\
+    path_match (r_path r) (u_path u) /\
+    (r_secure r = true -> u_secure u = true) /\
+    (forall e, r_expiry r = Some e -> (now < e)%Z).
+Proof. exact rfc_filter_spec. Qed.
+Print Assumptions C16_reference_allows.
+
+(* the reference store admits a cookie only under a domain that domain-matches the host that sent it *)
+Theorem C16_reference_set_own_domain : forall u now s m r,
+  In r (rfc_set1 u now s m) ->
+  In r s \/ (domain_match (r_domain r) (u_host u) /\ r_name r = m_name m /\ r_value r = m_value m).
+Proof. exact rfc_set1_own_domain. Qed.
+Print Assumptions C16_reference_set_own_domain.
+
+(* ---- A response can set or overwrite cookies only within its own host's domain (the jar itself, any state,
+   no side conditions beyond a non-empty host): after update_cookies every stored cookie either was there
+   before, unchanged, or lies under a domain the response host domain-matches and carries a name/value of this
+   response; and only (response host, name) pairs become host-only. *)
+Theorem C16_set_only_own_domain : forall j u ms now, u_host u <> [] ->
+  (forall k c, In (k, c) (j_cookies (update j u ms now)) ->
+     In (k, c) (j_cookies j) \/
+     (domain_match (k_dom k) (u_host u) /\ exists m, In m ms /\ k_name k = m_name m /\ c_value c = m_value m)) /\
+  (forall x, In x (j_host_only (update j u ms now)) ->
+     In x (j_host_only j) \/ (fst x = u_host u /\ exists m, In m ms /\ snd x = m_name m)).
+Proof. exact set_only_own_domain. Qed.
+Print Assumptions C16_set_only_own_domain.
+
+(* ---- The mechanisms the property names, as lemmas in their own right. *)
+
+(* _is_domain_match is exactly RFC 6265 5.1.3 *)
+Theorem C16_domain_match_exact : forall d h,
+  is_domain_match d h = true <->
+  (d = h \/ (d <> [] /\ (exists p, h = p ++ DOT :: d) /\ is_ip h = false)).
+Proof. exact is_domain_match_spec. Qed.
+Print Assumptions C16_domain_match_exact.
+
+(* the suffix enumeration of filter_cookies reaches exactly the host and its dot-separated parents *)
+Theorem C16_suffix_enumeration : forall h d,
+  In d (dot_suffixes h) <-> d = h \/ exists p, h = p ++ DOT :: d.
+Proof. exact dot_suffixes_In. Qed.
+Print Assumptions C16_suffix_enumeration.
+
+(* ... and the prefix enumeration exactly the path and its "/"-separated ancestors *)
+Theorem C16_prefix_enumeration : forall r p,
+  In p (path_prefixes r) <-> p = r \/ exists t, r = p ++ SLASH :: t.
+Proof. exact path_prefixes_In. Qed.
+Print Assumptions C16_prefix_enumeration.
+
+(* expiry heap: if every recorded deadline has a heap entry, then after _do_expiration no remaining cookie has a
+   deadline <= now, and the heap still covers the deadlines *)
+Theorem C16_expiry_sound : forall j now, heap_covers j ->
+  heap_covers (do_expiration j now) /\
+  forall k c w, In (k, c) (j_cookies (do_expiration j now)) ->
+    lookup k (j_expirations (do_expiration j now)) = Some w -> (now < w)%Z.
+Proof. exact (fun j now H => conj (do_expiration_covers j now H) (do_expiration_live j now H)). Qed.
+Print Assumptions C16_expiry_sound.
+
+(* deletion (expiry, clear_domain) keeps the side tables in step: whatever cookie remains keeps its host-only
+   flag and its deadline (this is the invariant the repaired host-only defect broke) *)
+Theorem C16_deletion_keeps_side_tables : forall j ks k c,
+  In (k, c) (j_cookies (delete_cookies j ks)) ->
+  In (k, c) (j_cookies j) /\
+  (flagged j k = true -> flagged (delete_cookies j ks) k = true) /\
+  (forall w, lookup k (j_expirations j) = Some w -> lookup k (j_expirations (delete_cookies j ks)) = Some w).
+Proof. exact (fun j ks => delete_cookies_sub ks j). Qed.
+Print Assumptions C16_deletion_keeps_side_tables.
+
+(* persistence: whatever cookie is present after save+load was present before with the same value, path and
+   Secure flag, is still host-only if it was, and still has its absolute deadline *)
+Theorem C16_save_load_preserves : forall j now k c, Inv j ->
+  In (k, c) (j_cookies (save_load j now)) ->
+  In (k, c) (j_cookies j) /\
+  (flagged j k = true -> flagged (save_load j now) k = true) /\
+  (forall w, lookup k (j_expirations j) = Some w -> lookup k (j_expirations (save_load j now)) = Some w).
+Proof. exact (fun j now k c HI => proj1 (proj2 (save_load_Q j now HI)) k c). Qed.
+Print Assumptions C16_save_load_preserves.
+
+(* ---- Equality with the reference store ("the cookies attached are those an RFC store would attach") fails in
+   the other direction, benignly: the jar returns one cookie per name.  Two cookies "a" on / and /foo both match
+   /foo; the reference attaches both, the jar only the longer path.  (Not a leak; recorded here only.) *)
+Theorem C16_refines_refuted_shadowing :
+  forallb op_okb w_shadowing = true /\
+  snd (run (empty_jar false, T0) w_shadowing) = [ [ (s_a, s_v2) ] ] /\
+  snd (rfc_run false ([], T0) w_shadowing) = [ [ (s_a, s_v2); (s_a, s_v1) ] ].
+Proof. exact shadowing_incomplete. Qed.
+Print Assumptions C16_refines_refuted_shadowing.
+
+(* ---- Non-vacuity: a history inside the proved fragment (host-only + Domain= + Secure + Max-Age + save/load)
+   with non-empty answers: sub-domain gets only the Domain= cookie; the host gets both; http drops the Secure one;
+   the look-alike host gets nothing; after the deadline the Max-Age cookie is gone. *)
+Example C16_example_history :
+  forallb op_okb w_example = true /\
+  snd (run (empty_jar false, T0) w_example) =
+    [ [ ([98], [118; 50]) ]; [ ([97], [118; 49]); ([98], [118; 50]) ]; [ ([97], [118; 49]) ]; []; [ ([98], [118; 50]) ] ].
+Proof. vm_compute. auto. Qed.
+Print Assumptions C16_example_history.
+
+Example C16_example_domain_match :
+  is_domain_match [101; 46; 99] [115; 46; 101; 46; 99] = true /\      (* "e.c" vs "s.e.c" *)
+  is_domain_match [101; 46; 99] [115; 101; 46; 99] = false /\          (* "e.c" vs "se.c": look-alike *)
+  is_domain_match [51; 46; 52] [49; 46; 50; 46; 51; 46; 52] = false.   (* "3.4" vs "1.2.3.4": IP *)
+Proof. vm_compute. auto. Qed.
+Print Assumptions C16_example_domain_match.
